@@ -22,7 +22,7 @@ func init() {
 		Explanation: "C12.gate: decision table of size.unmarshalJSON over (dynamic token type, string-rule bit, object-rule bit) extracted by predicate abstraction and compared with the documented outcomes (number and string tokens go to the text parser, the string with the rule's RuleDisableUnit bit: the result is what the text rules give); DefaultParser enters JSON mode iff a JSON rule bit is set; UseNumber precedes the first Token. " +
 			"C12.whole: every success return of the JSON path is preceded, after the value is complete, by an end-of-input check of an enumerated form (Token()==io.EOF, More(), InputOffset, json.Valid), and the object path consumes its closing delimiter. " +
 			"C12.zero: every comparison against the exported limit MaxObjectKeys is conjoined with a `!= 0` test (0 disables, as at the five MaxInputLength sites). " +
-			"C12.count: in the key loop every path from a member read to the success exit passes a limit comparison that covers that read (order independence of the verdict). " +
+			"C12.count: in the key loop every path from a member read to the success exit passes a limit comparison that covers that read (order independence of the verdict); the comparison and the read may each sit in a helper of the module (an error-returning check of the counter, a key reader). " +
 			"C12.object: the members reach newSize as decoded by decodeValue / decodeUnit, which accept only a number resp. string token (null counts as wrongly typed) — C08.object under this property. C12.keyeq: a member is value / unit only when its lower-cased key equals the constant (C04.keys, strict: the normaliser is a function of the module evaluated byte class by byte class to A–Z ↦ a–z and nothing else; strings.ToLower also folds U+0130 and U+212A). C12.keys: lower-cased key switch against lower-case constants equal to the marshal keys; duplicate tests precede decoding and return the matching ErrDuplicated*; newOrError maps nil to ErrMissingValueKey/ErrMissingUnitKey; decodeValue/decodeUnit accept exactly json.Number/string; the default arm returns ErrUnexpectedKey iff RuleDisallowUnknownKeys else skips nested values with a depth counter. " +
 			"C12.entry: Size.UnmarshalJSON hands its bytes and the configured DefaultRule, unmasked, to the package-level Parser (a mask would drop RuleDisallowUnknownKeys or a form bit on the encoding/json route). C12.all: the member loop is left for the success path only on the edge where More() reports no member left (otherwise later duplicates, unknown keys and the member count go unexamined and the verdict depends on member order). " +
 			"S-WRAP: sentinels bound to %w; errors of the object reader re-wrapped by newParseError. The skipper's nesting counter is decided as a transfer function per token class (scalar, {, [, }, ]): +1, +1, −1, −1, 0, the decreased value tested against zero with the zero side returning nil; the token domain of the gate includes JSON null (a nil token: refused as wrongly typed); the key normaliser is evaluated with the examined byte at every position up to the longest key.",
